@@ -8,7 +8,7 @@ with math/big (a disagreement is a specification bug: exit 2, never a verdict ab
 The thorough tier adds seeded random int32 / decimal cases generated here and judged by the same TLA+ judge.
 """
 import json, random, re
-from lib import driver as D
+from lib import driver as D, machine as M
 
 MUTANTS = ["divRoundsDown", "noOverflowCheck", "negMinInt", "modSignOfDivisor",
            "quotient15", "ceilIsFloorPlusOne", "roundTruncates", "roundHalfDown"]
@@ -276,6 +276,8 @@ def run(ctx):
         kind = out["k"] if out["k"] != "ok" else ("empty" if not out["items"] else out["items"][0].get("t", "?"))
         keys.append((c["op"], cls(c["l"]), c["l"]["src"], cls(c["r"]) if c["r"]["t"] != "none" else "-", c["r"]["src"], kind))
     samples = [{"src": o["text"], "out": o["out"]} for o in obs[:: max(1, len(obs) // 6)]]
+    # programs of the whole abstract machine whose last step is one of this property's operations (lib/machine.py)
+    verdicts = M.extend(ctx, verdicts, by_id)
     return D.finish(ctx, verdicts, by_id, evaluations=3 * len(obs),
                     rule="every pair of the Integer boundary pool (22 values incl. the property's 15) x 6 operators from variables and from literals; "
                          "decimal pool (%s signed values: 0..30 fractional digits, up to 40 significant, ties, int32/int64/2^53 boundaries) squared x 6 operators; "
